@@ -329,6 +329,41 @@ def do_check(pid, tier, seed):
     trace_states = 0
     drift = 0
     nfail = 0
+
+    def run_extra(chunks, drv, label):
+        """replay files -> traces (harness) -> TLC trace validation in parallel -> classify"""
+        nonlocal events, trace_states, drift, foreign, nfail
+        djobs = []
+        for rp in chunks:
+            tr = rp.replace(".replay.ndjson", ".trace.ndjson")
+            subprocess.run([HARNESS, "replay", rp, "--out", tr], stdout=subprocess.PIPE, stderr=subprocess.STDOUT, text=True, timeout=600)
+            djobs.append((None, tr, drv))
+        jobs.extend(djobs)
+        with ThreadPoolExecutor(max_workers=tp.get("tlc_parallel", 8)) as ex:
+            dres = list(ex.map(validate, djobs))
+        for tr, res3, _ in dres:
+            events += res3["accepted"]
+            for k_, v_ in res3["counts"].items():
+                counts[k_] = counts.get(k_, 0) + v_
+            trace_states += res3["states"]
+            drift += len(res3["drift"])
+            viol3, kn3, fo3 = classify(pid, res3, known)
+            foreign += fo3
+            for (l, text) in kn3:
+                known_hits.append((tr, l, text))
+            seen3 = set()
+            for (l, text) in sorted(viol3):
+                ep = episode_slice(tr, l)
+                if ep and ep[0] in seen3:
+                    continue
+                seen3.add(ep[0])
+                nfail += 1
+                rpf = os.path.join(wd, "fail-%d.ndjson" % nfail)
+                with open(rpf, "w") as f:
+                    f.write("\n".join(ep) + "\n")
+                    f.write(json.dumps({"ev": "verdict", "property": pid, "event": len(ep), "text": text}) + "\n")
+                violations.append((rpf, "%s: %s" % (label, text)))
+
     for path, res, secs in results:
         events += res["accepted"]
         trace_states += res["states"]
@@ -541,37 +576,36 @@ def do_check(pid, tier, seed):
                             o.write('{"ev":"rel","name":"ObsEq","slots":[1,2]}\n')
                 if o:
                     o.close()
-                djobs = []
-                for rp in chunks:
-                    tr = rp.replace(".replay.ndjson", ".trace.ndjson")
-                    subprocess.run([HARNESS, "replay", rp, "--out", tr], stdout=subprocess.PIPE, stderr=subprocess.STDOUT, text=True, timeout=600)
-                    djobs.append((None, tr, "C11X"))
-                jobs.extend(djobs)
-                with ThreadPoolExecutor(max_workers=tp.get("tlc_parallel", 8)) as ex:
-                    dres = list(ex.map(validate, djobs))
                 model_runs[-1]["dump_paths_checked"] = k
-                for tr, res3, _ in dres:
-                    events += res3["accepted"]
-                    for k_, v_ in res3["counts"].items():
-                        counts[k_] = counts.get(k_, 0) + v_
-                    trace_states += res3["states"]
-                    drift += len(res3["drift"])
-                    viol3, kn3, fo3 = classify(pid, res3, known)
-                    foreign += fo3
-                    for (l, text) in kn3:
-                        known_hits.append((tr, l, text))
-                    seen3 = set()
-                    for (l, text) in sorted(viol3):
-                        ep = episode_slice(tr, l)
-                        if ep and ep[0] in seen3:
+                run_extra(chunks, "C11X", "state enumerated by TLC (%s)" % m["cfg"])
+            if m.get("batch"):
+                # every behaviour again with all calls after the fill concatenated into ONE feed_str call:
+                # what a call reports (changed lines, handed-out scrollback) and when it trims must hold
+                # for a whole call, however many functions it carries
+                CH = 8000
+                chunks = []
+                o = None
+                k = 0
+                with open(beh) as f:
+                    for ln in f:
+                        b = json.loads(ln)
+                        ops = b["ops"]
+                        if len(ops) < 3 or any(op["k"] != "fs" for op in ops):
                             continue
-                        seen3.add(ep[0])
-                        nfail += 1
-                        rpf = os.path.join(wd, "fail-%d.ndjson" % nfail)
-                        with open(rpf, "w") as f:
-                            f.write("\n".join(ep) + "\n")
-                            f.write(json.dumps({"ev": "verdict", "property": pid, "event": len(ep), "text": text}) + "\n")
-                        violations.append((rpf, "state enumerated by TLC (%s): %s" % (m["cfg"], text)))
+                        if k % CH == 0:
+                            if o:
+                                o.close()
+                            chunks.append(os.path.join(wd, "batch-%s-%d.replay.ndjson" % (m["cfg"], len(chunks))))
+                            o = open(chunks[-1], "w")
+                        k += 1
+                        o.write(json.dumps({"ev": "ep", "id": k, "drv": "BATCH"}) + "\n")
+                        o.write(json.dumps({"ev": "new", "slot": 1, "cols": b["init"][0], "rows": b["init"][1], "lim": b["init"][2]}) + "\n")
+                        o.write(json.dumps({"ev": "fs", "slot": 1, "s": ops[0]["s"], "consumed": True}) + "\n")
+                        o.write(json.dumps({"ev": "fs", "slot": 1, "s": [c for op in ops[1:] for c in op["s"]], "consumed": True}) + "\n")
+                if o:
+                    o.close()
+                model_runs[-1]["batched_calls_checked"] = k
+                run_extra(chunks, "BATCH", "behaviour generated by TLC (%s) fed as one call" % m["cfg"])
 
     # ---- 3b. vacuity guard: the predicates this property depends on must actually have been evaluated
     for tag, least in plan.get("requires", {}).items():
